@@ -439,7 +439,21 @@ public:
                 }
             } else {
                 if (level < 0 || level > ctx->topHeight - 2) ctx->fail("top-level-range:M2M", "level " + vh::str(level));
-                for (long k = 0; k < n; ++k) if (pos[k] < 0 || pos[k] >= (1L << D)) ctx->fail("child-code-range:M2M", "code " + vh::str(pos[k]));
+                std::set<long> codes; long treeChildren = 0;
+                for (long k = 0; k < n; ++k) {
+                    if (pos[k] < 0 || pos[k] >= (1L << D)) { ctx->fail("child-code-range:M2M", "code " + vh::str(pos[k])); continue; }
+                    if (!codes.insert(pos[k]).second) ctx->fail("children-distinct:M2M", "top tree: position code " + vh::str(pos[k]) + " handed twice in one call");
+                    // the first step gathers the real level-1 cells: their code must be their octant
+                    auto cit = ctx->multipoles.find(&ch[k].get());
+                    if (cit != ctx->multipoles.end()) {
+                        ++treeChildren;
+                        Coord<D> c; for (int d = 0; d < D; ++d) c[d] = cit->second.coord[d];
+                        if (cit->second.level != 1) ctx->fail("top-child-level:M2M", "tree child at level " + vh::str(cit->second.level));
+                        else if (pos[k] != vm::octantCode<D>(c)) ctx->fail("child-code:M2M", "top-tree code " + vh::str(pos[k]) + " child " + vh::astr(cit->second.coord));
+                    }
+                }
+                // the steps above repeat the box in every octant: all 2^Dim codes, once each
+                if (treeChildren == 0 && n != (1L << D)) ctx->fail("children-count:M2M", "top tree upper step with " + vh::str(n) + " children");
                 if (ctx->record) for (long k = 0; k < n; ++k) ctx->elems.push_back({vm::OP_M2M, level, {}, {}, pos[k]});
             }
             ctx->access(&up, true, 0, vm::OP_M2M);
